@@ -460,6 +460,82 @@ Definition tags_ok_chrom (cfg : config) (c : chrom) (alns : list aln) (out : lis
              negb (unlinked cfg c a) || tag_ok (ploidy cfg) (c_samples c) a (snd o))
           (combine alns out).
 
+(* the tag rule for linked reads, stated without reference to the processing order: if the reads of a
+   barcode (within one sample's read set, names distinct) fall into well separated clouds — being within
+   the distance cut-off of each other is transitive among them — then the cloud of a read is unambiguous
+   (all reads of the barcode within the cut-off of it) and an alignment tagged through its own read (PC
+   present) must carry the strict best haplotype of that whole cloud.  Applies when exactly one read of
+   all samples has the alignment's name. *)
+Definition bx_reads (b : Z) (rs : list read) : list read := filter (fun r => opt_eqb (r_bx r) b) rs.
+Definition near (cfg : config) (r1 r2 : read) : bool := close (cutoff cfg) (r_start r1) (r_start r2).
+Definition clouds_separated (cfg : config) (rb : list read) : bool :=
+  forallb (fun r1 => forallb (fun r2 => forallb (fun r3 =>
+     negb (near cfg r1 r2 && near cfg r2 r3) || near cfg r1 r3) rb) rb) rb.
+Definition cloud_of (cfg : config) (rb : list read) (r : read) : list read := filter (near cfg r) rb.
+Fixpoint nodupZ (l : list Z) : bool :=
+  match l with [] => true | x :: t => negb (memZ x t) && nodupZ t end.
+Definition named_in (n : Z) (samples : list sample_in) : list (sample_in * read) :=
+  flat_map (fun s => map (fun r => (s, r)) (filter (fun r => r_name r =? n) (snd s))) samples.
+Definition linked_tag_ok (cfg : config) (samples : list sample_in) (a : aln) (t : tags3) : bool :=
+  match named_in (a_name a) samples with
+  | [(s, r)] =>
+      match r_bx r with
+      | Some b =>
+          let rb := bx_reads b (snd s) in
+          if linked cfg && nodupZ (map r_name (snd s)) && clouds_separated cfg rb then
+            match t with
+            | (Some hp, Some ps, Some _) =>
+                (1 <=? hp) && strict_best (phaseinfo (fst s)) (ploidy cfg) (cloud_of cfg rb r) ps (Z.to_nat (hp - 1))
+            | _ => true
+            end
+          else true
+      | None => true
+      end
+  | _ => true
+  end.
+Definition linked_tags_ok_chrom (cfg : config) (c : chrom) (alns : list aln) (out : list (Z * tags3)) : bool :=
+  forallb (fun p => linked_tag_ok cfg (c_samples c) (fst p) (snd (snd p))) (combine alns out).
+(* evidence only: the rule above was applied to a tagged alignment whose cloud has >= 2 reads *)
+Definition linked_rule_applied (cfg : config) (c : chrom) (alns : list aln) (out : list (Z * tags3)) : bool :=
+  existsb (fun p =>
+     match named_in (a_name (fst p)) (c_samples c), snd (snd p) with
+     | [(s, r)], (Some _, Some _, Some _) =>
+         match r_bx r with
+         | Some b => let rb := bx_reads b (snd s) in
+                     linked cfg && nodupZ (map r_name (snd s)) && clouds_separated cfg rb
+                     && Nat.ltb 1 (length (cloud_of cfg rb r)) && Nat.ltb (length (cloud_of cfg rb r)) (length rb)
+         | None => false
+         end
+     | _, _ => false
+     end) (combine alns out).
+
+(* the variant table handed to the decision: rows = what the reader delivered, expected = the biallelic
+   records of the VCF as generated (position, homozygous?, phase); without regions they must be equal,
+   with regions the delivered rows are a sub-list of the expected ones that contains every expected row
+   whose position lies inside a region *)
+Definition phase_eqb (a b : option phase) : bool :=
+  match a, b with
+  | Some (x, p), Some (y, q) => (x =? y) && list_eqb Z.eqb p q
+  | None, None => true
+  | _, _ => false
+  end.
+Definition vrow_eqb (a b : vrow) : bool :=
+  (fst (fst a) =? fst (fst b)) && Bool.eqb (snd (fst a)) (snd (fst b)) && phase_eqb (snd a) (snd b).
+Fixpoint sublist_rows (rows expected : list vrow) : bool :=
+  match rows, expected with
+  | [], _ => true
+  | _ :: _, [] => false
+  | r :: rows', e :: expected' => if vrow_eqb r e then sublist_rows rows' expected' else sublist_rows rows expected'
+  end.
+Definition table_ok (regs : option (list region)) (rows expected : list vrow) : bool :=
+  match regs with
+  | None => list_eqb vrow_eqb rows expected
+  | Some rl =>
+      sublist_rows rows expected &&
+      forallb (fun e => negb (existsb (fun rg => (fst rg <=? fst (fst e)) && lt_end (fst (fst e)) (snd rg)) rl)
+                        || existsb (vrow_eqb e) rows) expected
+  end.
+
 (* the haplotag list agrees with the written records: one line (name, HP, PS) per primary record *)
 Definition list_of_records (outs : list aln) : list (Z * option Z * option Z) :=
   flat_map (fun a => if a_secondary a || a_suppl a then [] else [(a_name a, fst (fst (a_old a)), snd (fst (a_old a)))]) outs.
